@@ -6,4 +6,4 @@ Extraction Language OCaml.
 Extraction "model_c16.ml"
   Printer.print Parser.parse Shape.glue Shape.image Shape.no_bad_with Shape.bad_child_with Shape.lower_stable Ast.kind_of Shape.kind_name
   PrinterMoved.print_moved PrinterMoved.move_ast PrinterMoved.moved_class PrinterMoved.moved_policy
-  PrinterMoved.move_ref PrinterMoved.move_range PrinterMoved.m_tgt PrinterMoved.m_src PrinterMoved.ref_is_in_area.
+  PrinterMoved.move_ref PrinterMoved.move_range PrinterMoved.m_tgt PrinterMoved.m_src PrinterMoved.ref_is_in_area PrinterMoved.external_skipped PrinterMoved.external_rewritten.
